@@ -560,8 +560,36 @@ def _extract_branch(req, counter):
     return {"test": test, "name": key[1], "headers_local": cont[1]}
 
 
-def _extract_hdr_init(mod):
-    """RequestArguments.__init__: what becomes `self.headers` -> 'copy' | 'alias'"""
+def _headers_statement(path):
+    """line range of the one statement of RequestArguments.__init__ that assigns self.headers"""
+    import ast
+    tree = ast.parse(open(path).read())
+    cls = next((c for c in tree.body if isinstance(c, ast.ClassDef) and c.name == "RequestArguments"), None)
+    fn = next((f for f in (cls.body if cls else []) if isinstance(f, ast.FunctionDef) and f.name == "__init__"), None)
+    if fn is None:
+        raise Refuse("RequestArguments.__init__ not found")
+
+    def assigns(node):
+        for n in ast.walk(node):
+            targets = n.targets if isinstance(n, ast.Assign) else [n.target] if isinstance(n, (ast.AnnAssign, ast.AugAssign)) else []
+            for t in targets:
+                for tt in ast.walk(t):
+                    if isinstance(tt, ast.Attribute) and tt.attr == "headers" and isinstance(tt.value, ast.Name) \
+                            and tt.value.id == "self":
+                        return True
+        return False
+
+    hits = [st for st in fn.body if assigns(st)]
+    if len(hits) != 1:
+        raise Refuse("RequestArguments.__init__ assigns self.headers in %d statements (one expected)" % len(hits))
+    return hits[0].lineno, hits[0].end_lineno
+
+
+def _extract_hdr_init(mod, path):
+    """RequestArguments.__init__: what becomes `self.headers` -> 'copy' | 'alias'.  Only the statement that
+    assigns self.headers is evaluated; the other statements of the function (path, params, data …) are not
+    C16's business."""
+    lo, hi = _headers_statement(path)
     cls = _find_code(mod, "RequestArguments")
     init = _find_code(cls, "__init__") if cls is not None else None
     if init is None or "headers" not in init.co_varnames[:init.co_argcount]:
@@ -570,12 +598,17 @@ def _extract_hdr_init(mod):
     H = ("local", "headers")
     results = []
 
+    def inside(i):
+        ln = i.positions.lineno if i.positions is not None else None
+        return ln is not None and lo <= ln <= hi
+
     def run(pc, stack, given, stored, depth):
         if depth > 6:
             raise Refuse("RequestArguments.__init__: too many branches")
         while True:
-            if pc >= len(m.ins):
-                raise Refuse("RequestArguments.__init__: fell off the end")
+            if pc >= len(m.ins) or not inside(m.ins[pc]):      # left the statement
+                results.append((given, stored))
+                return
             i = m.ins[pc]
             op = i.opname
             if op in ("RESUME", "NOP"):
@@ -628,15 +661,20 @@ def _extract_hdr_init(mod):
                 m.refuse(i, "opcode not understood")
             pc += 1
 
+    first = next((n for n, i in enumerate(m.ins) if inside(i)), None)
+    if first is None:
+        raise Refuse("RequestArguments.__init__: no bytecode for the statement that assigns self.headers")
     try:
-        run(0, [], None, None, 0)
+        run(first, [], None, None, 0)
     except IndexError:
         raise Refuse("RequestArguments.__init__: stack underflow")
+    if any(g is None for g, _ in results):            # no test of the argument at all
+        results = [(True, v) for _, v in results] + [(False, v) for _, v in results]
     given = [v for g, v in results if g is True]
     absent = [v for g, v in results if g is False]
     if len(given) != 1 or len(absent) != 1:
         raise Refuse("RequestArguments.__init__: self.headers is not chosen by one test of the headers argument")
-    if absent[0] not in (("newdict",), ("call", ("meth", H, "copy"), ())):
+    if absent[0] not in (("newdict",), ("call", ("meth", H, "copy"), ()), ("call", ("global", "dict"), (H,))):
         raise Refuse("RequestArguments.__init__: without caller headers self.headers is %r" % (absent[0],))
     if given[0] in (("call", ("meth", H, "copy"), ()), ("call", ("global", "dict"), (H,))):
         return "copy"
@@ -721,6 +759,29 @@ def _extract_kinds(path, mod):
     return kinds, why
 
 
+def _check_order(req):
+    """the order of the steps of do_request the hand-written model relies on: request arguments are built from
+    the caller's values, the adapters process them, the headers are unpacked, then the id branch, then the
+    urllib Request is made.  Everything else in the function (url, method, body, response handling) may change."""
+    ins = [i for i in dis.get_instructions(req)]
+
+    def first(pred, what):
+        for n, i in enumerate(ins):
+            if pred(i):
+                return n
+        raise Refuse("do_request: %s not found" % what)
+
+    marks = [
+        first(lambda i: i.opname == "LOAD_GLOBAL" and i.argval == "RequestArguments", "construction of RequestArguments"),
+        first(lambda i: i.opname == "LOAD_ATTR" and i.argval == "process_req_args", "adapter.process_req_args(...)"),
+        first(lambda i: i.opname == "LOAD_ATTR" and i.argval == "args", "req_args.args()"),
+        first(lambda i: i.opname == "LOAD_ATTR" and i.argval == "_generate_request_id", "self._generate_request_id()"),
+        first(lambda i: i.opname == "LOAD_ATTR" and i.argval == "Request", "urllib.request.Request(...)"),
+    ]
+    if marks != sorted(marks):
+        raise Refuse("do_request: the steps 'request arguments, adapters, unpack, id, urllib Request' are not in this order")
+
+
 _ANALYSIS = {}
 _ANALYSIS = {}
 
@@ -744,7 +805,8 @@ def analyse(repo):
             raise
         try:
             a.update(_extract_branch(req, a["counter"]))
-            a["init"] = _extract_hdr_init(_load_codes.mod)
+            a["init"] = _extract_hdr_init(_load_codes.mod, path)
+            _check_order(req)
             a["kinds"], a["kinds_why"] = _extract_kinds(path, _load_codes.mod)
         except Exception as e:
             _ANALYSIS[key] = e
